@@ -1892,7 +1892,15 @@ func (d *Data) modifyConfig(config dvid.Config) error {
 		if err != nil {
 			return err
 		}
+		// the per-scale update counters must cover every scale up to the new maximum
+		d.updateMu.Lock()
+		if n := int(maxDownresLevel) + 1; n > len(d.updates) {
+			updates := make([]uint32, n)
+			copy(updates, d.updates)
+			d.updates = updates
+		}
 		d.MaxDownresLevel = uint8(maxDownresLevel)
+		d.updateMu.Unlock()
 	}
 	return nil
 }
@@ -2024,7 +2032,7 @@ func NewData(uuid dvid.UUID, id dvid.InstanceID, name dvid.InstanceName, c dvid.
 		}
 		downresLevels = uint8(levels)
 	}
-	data.updates = make([]uint32, downresLevels+1)
+	data.updates = make([]uint32, int(downresLevels)+1)
 
 	data.MaxLabel = make(map[dvid.VersionID]uint64)
 	data.IndexedLabels = indexedLabels
@@ -2123,7 +2131,7 @@ func (d *Data) GobDecode(b []byte) error {
 		dvid.Errorf("Decoding labelmap %q: no MaxDownresLevel, setting to 7", d.DataName())
 		d.MaxDownresLevel = 7
 	}
-	d.updates = make([]uint32, d.MaxDownresLevel+1)
+	d.updates = make([]uint32, int(d.MaxDownresLevel)+1)
 	return nil
 }
 
